@@ -2673,7 +2673,9 @@ def inline_context_managers(prog):
                         params = params[1:]
                     defaults = dict(zip(params[len(params) - len(fn.args.defaults):], fn.args.defaults))
                     if len(call.args) <= len(params) and all(p_ in defaults for p_ in params[len(call.args):]) \
-                            and all(isinstance(x, (ast.Constant, ast.Name, ast.Attribute, ast.JoinedStr)) for x in call.args):
+                            and all(isinstance(x, (ast.Constant, ast.Name, ast.Attribute, ast.JoinedStr, ast.Lambda))
+                                    or (isinstance(x, ast.Tuple) and all(isinstance(y, (ast.Name, ast.Attribute)) for y in x.elts))
+                                    for x in call.args):
                         sub = dict(zip(params, call.args))
                         for p_ in params[len(call.args):]:
                             sub[p_] = defaults[p_]
